@@ -91,6 +91,31 @@ impl BigUint {
         r/*-*/
     }
 //@ end
+
+//@ extract src/biguint.rs :: impl PartialOrd for BigUint :: fn partial_cmp props=C04
+    fn partial_cmp(&self, other: &BigUint) -> /*+*/(r: /*-*/Option<Ordering>/*+*/)/*-*/
+//+{
+        requires self.wf(), other.wf()
+        ensures r == Some(ord_of(self.v(), other.v()))
+//+}
+    {
+        Some(self.cmp(other))
+    }
+//@ end
+
+//@ extract src/biguint.rs :: impl BigUint :: const ZERO rules=R9,R13 label=BigUint_ZERO
+    exec const ZERO: Self /*+*/ensures Self::ZERO.data@.len() == 0 /*-*/{ BigUint { data: Vec::new() } }
+//@ end
+
+//@ extract src/biguint.rs :: impl Default for BigUint :: fn default props=C04,C19
+    fn default() -> /*+*/(r: /*-*/BigUint/*+*/)/*-*/
+//+{
+        ensures r.wf(), r.v() == 0
+//+}
+    {
+        Self::ZERO
+    }
+//@ end
 }
 
 } // mod u
